@@ -198,6 +198,31 @@ def oracle_hash(lines_by_R):
                 if o_map != o_ds:
                     fails.append({'what': 'containers disagree on the owner of one key', 'R': R, 'entry': t})
                 rows.append((hsh, R, o_map))
+    # placement: every stored element sits on its owner, and exactly once across the communicator
+    for R, lines in lines_by_R.items():
+        seen = {}
+        nkeys = None
+        for l in lines:
+            if l.startswith('HP ') and ':' in l:
+                head, tail = l.split(':', 1)
+                rk = int(head.split()[2])
+                for t in tail.split():
+                    cont, key, own = t.split(',')
+                    n += 1
+                    if int(own) != rk:
+                        fails.append({'what': '%s: key %s is stored on rank %d, its owner is rank %s' % (cont, key, rk, own), 'R': R})
+                    seen[(cont, key)] = seen.get((cont, key), 0) + 1
+            elif l.startswith('HQ ') and ':' in l:
+                vals = l.split(':', 1)[1].split()
+                want = [sum(1 for (c, k) in seen if c == x) for x in ('mi', 'ms', 'ss', 'ds')]
+                nkeys = vals
+        dup = [k for k, v in seen.items() if v != 1]
+        if dup:
+            fails.append({'what': 'stored on %d ranks instead of one: %s' % (seen[dup[0]], dup[0]), 'R': R})
+        if nkeys is not None:
+            want = [sum(1 for (c, k) in seen if c == x) for x in ('mi', 'ms', 'ss', 'ds')]
+            if [int(x) for x in nkeys[:4]] != want:
+                fails.append({'what': 'size() of map<int> / map<string> / set<string> / disjoint_set is %s, distinct stored elements: %s' % (nkeys[:4], want), 'R': R})
     return n, fails, rows
 
 def coq_hash_table(rows):
